@@ -59,6 +59,7 @@ theorem step_plain {s : FState} {c : Rune} (hr : Reg s) (hc : plainCh c = true) 
   subst h1 h2 h3 h4 h5 h7 h8
   have hq : (c == 34) = false := by simp [h34]
   have hbq : (c == 96) = false := by simp [h96]
+  have hbs : (c == 92) = false := by simp [h92]
   simp [step, stepHeredoc, stepLiteral, stepRegular, stepRegular2, stepBrace, maybeFlush,
     rBQ, rLT, rBS, rDQ, rHash, rOpen, rClose, *]
 
@@ -84,6 +85,7 @@ theorem step_start {s : FState} {c : Rune} (hr : Reg s) (hc : startCh c = true) 
   subst h1 h2 h3 h4 h5 h7 h8
   have hq : (c == 34) = false := by simp [h34]
   have hbq : (c == 96) = false := by simp [h96]
+  have hbs : (c == 92) = false := by simp [h92]
   by_cases hh : c = 35
   · subst hh
     cases space <;>
@@ -301,6 +303,81 @@ theorem pending_start {t : FState} {c : Rune} (hr : Reg t) (hc : startCh c = tru
       stepWord6, FState.nextLines, FState.tabs, FState.indent, FState.nextLine, FState.write, tabsN, nextN, h4,
       rNL, rClose, rTAB, rOpen]
 
+/-- an opening quote at the start of a token is an ordinary first character that additionally
+    switches quoted mode on -/
+theorem step_dq {s : FState} (hr : Reg s) :
+    step s rDQ = stepWord (maybeFlush { s with space := false, quoted := s.space } s.space) s.space rDQ := by
+  obtain ⟨h1, h2, h3, h4, h5, h7, h8, h6⟩ := hr
+  obtain ⟨rout, last, space, bol, ob, obw, obs, nls, cm, q, esc, hd, hst, hde, mk, cl, nest, wbq, tke⟩ := s
+  simp only at h1 h2 h3 h4 h5 h6 h7 h8
+  subst h1 h2 h3 h4 h5 h7 h8
+  simp [step, stepHeredoc, stepLiteral, stepRegular, stepRegular2, stepBrace, maybeFlush,
+    rBQ, rLT, rBS, rDQ, rHash, rOpen, rClose, isSpace]
+
+/-- no `{` pending, at least one newline since the last word: newline(s) + indentation + `"` -/
+theorem first_dq_nl {t : FState} (hr : Reg t)
+    (h1 : t.space = true) (h2 : t.openBrace = false) (h3 : 1 ≤ t.newLines) :
+    step t rDQ = { t with rout := rDQ :: (tabsN t.nesting ++ (nlsN (min t.newLines 2) ++ t.rout)), last := rDQ, space := false, bol := false, newLines := 0, quoted := true } := by
+  rw [step_dq hr]
+  destruct_state t
+  simp only at h1 h2 h3
+  subst h1 h2
+  have hm : min nls 2 ≠ 0 := by omega
+  by_cases hn : nest = 0
+  · subst hn
+    simp [maybeFlush, stepWord, stepWord2, stepWord3, stepWord4, stepWord5, stepWord6, nextLines_eq, tabs_eq,
+      FState.indent, FState.write, tabsN, nlsN, hm, rDQ, rNL, rClose, rTAB]
+  · simp [maybeFlush, stepWord, stepWord2, stepWord3, stepWord4, stepWord5, stepWord6, nextLines_eq, tabs_eq,
+      FState.indent, FState.write, tabsN, nlsN, hm, hn, rDQ, rNL, rClose, rTAB]
+
+/-- no `{` pending, same line, not at the beginning of a line: one blank + `"` -/
+theorem first_dq_sp {t : FState} (hr : Reg t)
+    (h1 : t.space = true) (h2 : t.openBrace = false) (h3 : t.newLines = 0) (h4 : t.bol = false) :
+    step t rDQ = { t with rout := rDQ :: rSP :: t.rout, last := rDQ, space := false, quoted := true } := by
+  rw [step_dq hr]
+  destruct_state t
+  simp only at h1 h2 h3 h4
+  subst h1 h2 h3 h4
+  simp [maybeFlush, stepWord, stepWord2, stepWord3, stepWord4, stepWord5, stepWord6, FState.nextLines, FState.write]
+
+/-- no `{` pending, at the beginning of a fresh line (right after the newline that ended a
+    comment): indentation + `"` -/
+theorem first_dq_bol {t : FState} (hr : Reg t)
+    (h1 : t.space = true) (h2 : t.openBrace = false) (h3 : t.newLines = 0) (h4 : t.bol = true) (h5 : t.last = 10) :
+    step t rDQ = { t with rout := rDQ :: (tabsN t.nesting ++ t.rout), last := rDQ, space := false, bol := false, quoted := true } := by
+  rw [step_dq hr]
+  destruct_state t
+  simp only at h1 h2 h3 h4 h5
+  subst h1 h2 h3 h4 h5
+  by_cases hn : nest = 0
+  · subst hn
+    simp [maybeFlush, stepWord, stepWord2, stepWord3, stepWord4, stepWord5, stepWord6, FState.nextLines, tabs_eq,
+      FState.indent, FState.write, tabsN, rClose, rTAB]
+  · simp [maybeFlush, stepWord, stepWord2, stepWord3, stepWord4, stepWord5, stepWord6, FState.nextLines, tabs_eq,
+      FState.indent, FState.write, tabsN, hn, rClose, rTAB]
+
+/-- a `{` is pending (written neither at the brace nor since): `{`, newline, indentation, `"` -/
+theorem pending_dq {t : FState} (hr : Reg t)
+    (h1 : t.space = true) (h2 : t.openBrace = true) (h3 : t.openBraceWritten = false) (h4 : t.last ≠ 125)
+    (h5 : (t.bol = false ∧ t.openBraceSpace = true) ∨ (t.bol = true ∧ t.nesting = 0)) :
+    step t rDQ = { t with rout := rDQ :: (tabsN (nextN t.nesting .opn) ++ (rNL :: rOpen :: t.rout)), last := rDQ, space := false, bol := false, openBrace := false, openBraceWritten := true, newLines := 0, nesting := nextN t.nesting .opn, quoted := true } := by
+  rw [step_dq hr]
+  destruct_state t
+  simp only at h1 h2 h3 h4 h5
+  subst h1 h2 h3
+  rcases h5 with ⟨rfl, rfl⟩ | ⟨rfl, rfl⟩
+  · by_cases hn : nest < 10
+    · simp [maybeFlush, flushOpen, flush1, flush2, flush3, flush4, stepWord, stepWord2, stepWord3, stepWord4, stepWord5,
+        stepWord6, FState.nextLines, tabs_eq, FState.indent, FState.nextLine, FState.write, tabsN, nextN, hn, h4,
+        rNL, rClose, rTAB, rOpen]
+    · have : nest ≠ 0 := by omega
+      simp [maybeFlush, flushOpen, flush1, flush2, flush3, flush4, stepWord, stepWord2, stepWord3, stepWord4, stepWord5,
+        stepWord6, FState.nextLines, tabs_eq, FState.indent, FState.nextLine, FState.write, tabsN, nextN, hn, h4, this,
+        rNL, rClose, rTAB, rOpen]
+  · simp [maybeFlush, flushOpen, flush1, flush2, flush3, flush4, stepWord, stepWord2, stepWord3, stepWord4, stepWord5,
+      stepWord6, FState.nextLines, FState.tabs, FState.indent, FState.nextLine, FState.write, tabsN, nextN, h4,
+      rNL, rClose, rTAB, rOpen]
+
 /-- a `{` is pending and the block is empty: `{`, newline, indentation one level up, `}` -/
 theorem pending_close {t : FState} (hr : Reg t)
     (h1 : t.space = true) (h2 : t.openBrace = true) (h3 : t.openBraceWritten = false) (h4 : t.last ≠ 125)
@@ -379,12 +456,57 @@ structure InvM (N : Nat) (s : FState) : Prop where
   lastNS : isSpace s.last = false
   head : ∃ r, s.rout = s.last :: r
 
+/-- state right after the closing quote of a simple string: like after a plain word, except that
+    `tokenEnded` is still set (the white space that follows clears it) -/
+structure InvQ (N : Nat) (s : FState) : Prop where
+  comment : s.comment = false
+  quoted : s.quoted = false
+  escaped : s.escaped = false
+  heredoc : s.heredoc = 0
+  bq : s.backquoted = false
+  hst : s.heredocStart = false
+  te : s.tokenEnded = true
+  space : s.space = false
+  bol : s.bol = false
+  nl : s.newLines = 0
+  ob : s.openBrace = false
+  nest : s.nesting = N
+  last : s.last = 34
+  head : ∃ r, s.rout = 34 :: r
+
 def Inv : Option Kind → Nat → FState → Prop
   | none, N, s => s = {} ∧ N = 0
   | some .plain, N, s => InvP N s
   | some .opn, N, s => InvO N s
   | some .cls, N, s => InvC N s
   | some .cmt, N, s => InvM N s
+  | some .dq, N, s => InvQ N s
+
+theorem InvQ.toP {N : Nat} {s : FState} (h : InvQ N s) : InvP N { s with tokenEnded := false } := by
+  obtain ⟨r, hr⟩ := h.head
+  refine ⟨⟨h.comment, h.quoted, h.escaped, h.heredoc, h.bq, h.hst, rfl, ?_⟩, h.space, h.bol, h.nl, h.ob, h.nest, ?_, ⟨r, ?_⟩⟩
+  · show s.last ≠ 60; rw [h.last]; decide
+  · show isSpace s.last = false; rw [h.last]; decide
+  · show s.rout = s.last :: r; rw [h.last]; exact hr
+
+/-- the first white-space character after a closing quote clears `tokenEnded` -/
+theorem step_ws_te {N : Nat} {s : FState} {c : Rune} (h : InvQ N s) (hc : wsCh c = true) :
+    step s c = step { s with tokenEnded := false } c := by
+  obtain ⟨hsp, h13, h34, h35, h60, h92, h96, h123, h125⟩ := wsCh_spec hc
+  obtain ⟨h1, h2, h3, h4, h5, h6, h7, -, -, -, -, -, -, -⟩ := h
+  obtain ⟨rout, last, space, bol, ob, obw, obs, nls, cm, q, esc, hd, hst, hde, mk, cl, nest, wbq, tke⟩ := s
+  simp only at h1 h2 h3 h4 h5 h6 h7
+  subst h1 h2 h3 h4 h5 h6 h7
+  simp [step, stepHeredoc, stepLiteral, rLT, rBS, rNL, rCR, *]
+
+theorem foldl_after_dq {N : Nat} {s : FState} {sep w : List Rune} (h : InvQ N s) (hsep : sep.all wsCh = true)
+    (hne : sep ≠ []) :
+    (sep ++ w).foldl step s = (sep ++ w).foldl step { s with tokenEnded := false } := by
+  cases sep with
+  | nil => exact absurd rfl hne
+  | cons c ws =>
+    simp only [List.all_cons, Bool.and_eq_true] at hsep
+    simp only [List.cons_append, List.foldl_cons, step_ws_te h hsep.1]
 
 theorem lastOf_plain : ∀ (l : List Rune) (d : Rune), plainCh d = true → l.all plainCh = true → plainCh (lastOf d l) = true
   | [], _, hd, _ => hd
@@ -462,7 +584,61 @@ theorem cmt_word {t t1 : FState} {as : List Rune} {N : Nat}
     simp only [h6, hr]
     exact reverse_append_lastOf as rHash r
 
+theorem dqCh_spec {c : Rune} (h : dqCh c = true) : c ≠ 34 ∧ c ≠ 92 ∧ c ≠ 10 := by
+  simpa [dqCh, rDQ, rBS, rNL, and_assoc] using h
+
+/-- inside a simple string every character is copied -/
+theorem foldl_dq : ∀ (cs : List Rune) (s : FState), s.quoted = true → s.comment = false → s.backquoted = false →
+    s.escaped = false → s.heredoc = 0 → s.heredocStart = false → cs.all dqCh = true →
+    cs.foldl step s = { s with rout := cs.reverse ++ s.rout, last := lastOf s.last cs }
+  | [], s, _, _, _, _, _, _, _ => by simp [lastOf]
+  | c :: cs, s, h1, h2, h3, h4, h5, h6, hc => by
+    simp only [List.all_cons, Bool.and_eq_true] at hc
+    obtain ⟨h34, h92, h10⟩ := dqCh_spec hc.1
+    have hstep : step s c = { s with rout := c :: s.rout, last := c } := by
+      obtain ⟨rout, last, space, bol, ob, obw, obs, nls, cm, q, esc, hd, hst, hde, mk, cl, nest, wbq, tke⟩ := s
+      simp only at h1 h2 h3 h4 h5 h6
+      subst h1 h2 h3 h4 h5 h6
+      simp [step, stepHeredoc, stepLiteral, FState.write, rDQ, rBS, h34, h92]
+    rw [List.foldl_cons, hstep, foldl_dq cs { s with rout := c :: s.rout, last := c } h1 h2 h3 h4 h5 h6 hc.2]
+    simp [lastOf, List.reverse_cons, List.append_assoc]
+
+/-- the closing quote -/
+theorem dq_close {s : FState} (h1 : s.quoted = true) (h2 : s.comment = false) (h3 : s.backquoted = false)
+    (h4 : s.escaped = false) (h5 : s.heredoc = 0) (h6 : s.heredocStart = false) :
+    step s rDQ = { s with rout := rDQ :: s.rout, last := rDQ, quoted := false, tokenEnded := true } := by
+  obtain ⟨rout, last, space, bol, ob, obw, obs, nls, cm, q, esc, hd, hst, hde, mk, cl, nest, wbq, tke⟩ := s
+  simp only at h1 h2 h3 h4 h5 h6
+  subst h1 h2 h3 h4 h5 h6
+  simp [step, stepHeredoc, stepLiteral, FState.write, rDQ, rBS]
+
+/-- a simple string `"as"` whose opening quote leads to `t1` ends in an `InvQ` state -/
+theorem dq_word {t t1 : FState} {as : List Rune} {N : Nat}
+    (hstep : step t rDQ = t1) (has : as.all dqCh = true)
+    (hq : t1.quoted = true) (hc : t1.comment = false) (he : t1.escaped = false) (hh : t1.heredoc = 0)
+    (hb : t1.backquoted = false) (hs : t1.heredocStart = false)
+    (h1 : t1.space = false) (h2 : t1.bol = false) (h3 : t1.newLines = 0) (h4 : t1.openBrace = false)
+    (h5 : t1.nesting = N) :
+    InvQ N ((rDQ :: (as ++ [rDQ])).foldl step t) ∧
+      ((rDQ :: (as ++ [rDQ])).foldl step t).rout = rDQ :: (as.reverse ++ t1.rout) := by
+  rw [List.foldl_cons, hstep, List.foldl_append, foldl_dq as t1 hq hc hb he hh hs has]
+  simp only [List.foldl_cons, List.foldl_nil]
+  rw [dq_close (s := { t1 with rout := as.reverse ++ t1.rout, last := lastOf t1.last as }) hq hc hb he hh hs]
+  exact ⟨⟨hc, rfl, he, hh, hb, hs, rfl, h1, h2, h3, h4, h5, rfl, ⟨_, rfl⟩⟩, rfl⟩
+
+theorem dqTail_spec : ∀ (t : List Rune), dqTail t = true → ∃ content, t = content ++ [rDQ] ∧ content.all dqCh = true
+  | [], h => by simp [dqTail] at h
+  | [c], h => by
+    simp only [dqTail, beq_iff_eq] at h
+    exact ⟨[], by simp [h], rfl⟩
+  | c :: d :: t, h => by
+    simp only [dqTail, Bool.and_eq_true] at h
+    obtain ⟨content, hc, hall⟩ := dqTail_spec (d :: t) h.2
+    exact ⟨c :: content, by simp [hc], by simp [h.1, hall]⟩
+
 theorem plainCh_hash : plainCh rHash = false := by decide
+
+theorem plainCh_dq : plainCh rDQ = false := by decide
 
 theorem kind_plain_word {c : Chunk} (hw : c.wordOK = true) (hk : c.kind = .plain) :
     ∃ a as, c.word = a :: as ∧ plainCh a = true ∧ as.all plainCh = true := by
@@ -474,17 +650,21 @@ theorem kind_plain_word {c : Chunk} (hw : c.wordOK = true) (hk : c.kind = .plain
     · cases hk
     · split at hk
       · cases hk
-      · rename_i h1 h2 h3
-        cases hcw : c.word with
-        | nil => simp [hcw] at hw
-        | cons a as =>
-          rw [hcw] at hw h3
-          have ha : (a == rHash) = false := by
-            simp only [List.head?_cons, Option.some.injEq] at h3; simp [h3]
-          simp only [hcw] at h1 h2
-          simp only [Bool.or_eq_true, beq_iff_eq, h1, h2, false_or, ha, Bool.false_and, Bool.and_eq_true,
-            Bool.false_eq_true] at hw
-          exact ⟨a, as, rfl, hw.1, hw.2⟩
+      · split at hk
+        · cases hk
+        · rename_i h1 h2 h3 h4
+          cases hcw : c.word with
+          | nil => simp [hcw] at hw
+          | cons a as =>
+            rw [hcw] at hw h3 h4
+            have ha : (a == rHash) = false := by
+              simp only [List.head?_cons, Option.some.injEq] at h3; simp [h3]
+            have ha' : (a == rDQ) = false := by
+              simp only [List.head?_cons, Option.some.injEq] at h4; simp [h4]
+            simp only [hcw] at h1 h2
+            simp only [Bool.or_eq_true, beq_iff_eq, h1, h2, false_or, ha, ha', Bool.false_and, Bool.and_eq_true,
+              Bool.false_eq_true] at hw
+            exact ⟨a, as, rfl, hw.1, hw.2⟩
 
 theorem kind_cmt_word {c : Chunk} (hw : c.wordOK = true) (hk : c.kind = .cmt) :
     ∃ as, c.word = rHash :: as ∧ as.all cmtCh = true ∧ isSpace (lastOf rHash as) = false := by
@@ -503,10 +683,37 @@ theorem kind_cmt_word {c : Chunk} (hw : c.wordOK = true) (hk : c.kind = .cmt) :
           simp only [List.head?_cons, Option.some.injEq] at h3
           subst h3
           simp only [hcw] at h1 h2
+          have hd : (rHash == rDQ) = false := by decide
           simp only [Bool.or_eq_true, beq_iff_eq, h1, h2, false_or, plainCh_hash, Bool.false_and, or_false,
-            Bool.and_eq_true, Bool.not_eq_true', true_and, Bool.false_eq_true] at hw
+            Bool.and_eq_true, Bool.not_eq_true', true_and, Bool.false_eq_true, hd] at hw
           exact ⟨as, rfl, hw.1, hw.2⟩
+      · split at hk <;> cases hk
+
+theorem kind_dq_word {c : Chunk} (hw : c.wordOK = true) (hk : c.kind = .dq) :
+    ∃ as, c.word = rDQ :: (as ++ [rDQ]) ∧ as.all dqCh = true := by
+  unfold Chunk.kind at hk
+  unfold Chunk.wordOK at hw
+  split at hk
+  · cases hk
+  · split at hk
+    · cases hk
+    · split at hk
       · cases hk
+      · split at hk
+        · rename_i h1 h2 h3 h4
+          cases hcw : c.word with
+          | nil => simp [hcw] at h4
+          | cons a t =>
+            rw [hcw] at hw h4
+            simp only [List.head?_cons, Option.some.injEq] at h4
+            subst h4
+            simp only [hcw] at h1 h2
+            have hd : (rDQ == rHash) = false := by decide
+            simp only [Bool.or_eq_true, beq_iff_eq, h1, h2, false_or, plainCh_dq, Bool.false_and, or_false,
+              Bool.and_eq_true, true_and, Bool.false_eq_true, hd] at hw
+            obtain ⟨as, hc, hall⟩ := dqTail_spec t hw
+            exact ⟨as, by rw [hc], hall⟩
+        · cases hk
 
 theorem kind_opn_word {c : Chunk} (hk : c.kind = .opn) : c.word = [rOpen] := by
   unfold Chunk.kind at hk
@@ -514,7 +721,9 @@ theorem kind_opn_word {c : Chunk} (hk : c.kind = .opn) : c.word = [rOpen] := by
   · assumption
   · split at hk
     · cases hk
-    · split at hk <;> cases hk
+    · split at hk
+      · cases hk
+      · split at hk <;> cases hk
 
 theorem kind_cls_word {c : Chunk} (hk : c.kind = .cls) : c.word = [rClose] := by
   unfold Chunk.kind at hk
@@ -522,7 +731,9 @@ theorem kind_cls_word {c : Chunk} (hk : c.kind = .cls) : c.word = [rClose] := by
   · cases hk
   · split at hk
     · assumption
-    · split at hk <;> cases hk
+    · split at hk
+      · cases hk
+      · split at hk <;> cases hk
 
 theorem reg_init : Reg ({} : FState) := ⟨rfl, rfl, rfl, rfl, rfl, rfl, rfl, by decide⟩
 
@@ -801,6 +1012,84 @@ theorem m_close {N : Nat} {s : FState} {ws : List Rune} (h : InvM N s) (hws : ws
   · simp [hnest]
   · simp [hnest, hrout]
 
+/-- no brace pending, a string starts a new line -/
+theorem np_dq_nl {N : Nat} {s : FState} {sep : List Rune} {as : List Rune}
+    (h : NoPend N s) (hsep : sep.all wsCh = true) (hnl : 1 ≤ countNL sep) (has : as.all dqCh = true) :
+    InvQ N ((sep ++ rDQ :: (as ++ [rDQ])).foldl step s) ∧
+      ((sep ++ rDQ :: (as ++ [rDQ])).foldl step s).rout =
+        rDQ :: (as.reverse ++ (rDQ :: (tabsN N ++ (nlsN (min (countNL sep) 2) ++ s.rout)))) := by
+  rw [List.foldl_append, foldl_ws sep s h.reg hsep (countNL_pos_ne_nil hnl)]
+  have hreg := reg_afterSep h.reg sep
+  have hstep := first_dq_nl (t := afterSep s sep) hreg rfl h.ob (by simp [afterSep, h.nl]; exact hnl)
+  have := dq_word (N := N) (as := as) hstep has rfl hreg.comment hreg.escaped hreg.heredoc hreg.bq hreg.hst
+    rfl rfl rfl h.ob h.nest
+  refine ⟨this.1, ?_⟩
+  rw [this.2]
+  simp [afterSep, h.nl, h.nest]
+
+/-- after a plain word (or a string), same line: blank + string -/
+theorem p_dq_sp {N : Nat} {s : FState} {sep : List Rune} {as : List Rune}
+    (h : InvP N s) (hsep : sep.all wsCh = true) (hne : sep ≠ []) (hnl : countNL sep = 0) (has : as.all dqCh = true) :
+    InvQ N ((sep ++ rDQ :: (as ++ [rDQ])).foldl step s) ∧
+      ((sep ++ rDQ :: (as ++ [rDQ])).foldl step s).rout = rDQ :: (as.reverse ++ (rDQ :: rSP :: s.rout)) := by
+  rw [List.foldl_append, foldl_ws sep s h.reg hsep hne]
+  have hreg := reg_afterSep h.reg sep
+  have hstep := first_dq_sp (t := afterSep s sep) hreg rfl h.ob (by simp [afterSep, h.nl, hnl]) h.bol
+  have := dq_word (N := N) (as := as) hstep has rfl hreg.comment hreg.escaped hreg.heredoc hreg.bq hreg.hst
+    rfl h.bol (by simp [afterSep, h.nl, hnl]) h.ob h.nest
+  refine ⟨this.1, ?_⟩
+  rw [this.2]
+  simp [afterSep]
+
+/-- a `{` is pending and a string follows on a later line -/
+theorem o_dq {N : Nat} {s : FState} {sep : List Rune} {as : List Rune}
+    (h : InvO N s) (hsep : sep.all wsCh = true) (hnl : 1 ≤ countNL sep) (has : as.all dqCh = true) :
+    InvQ N ((sep ++ rDQ :: (as ++ [rDQ])).foldl step s) ∧
+      ((sep ++ rDQ :: (as ++ [rDQ])).foldl step s).rout =
+        rDQ :: (as.reverse ++ (rDQ :: (tabsN N ++ (rNL :: rOpen :: s.rout)))) := by
+  rw [List.foldl_append, foldl_ws sep s h.reg hsep (countNL_pos_ne_nil hnl)]
+  have hreg := reg_afterSep h.reg sep
+  have hstep := pending_dq (t := afterSep s sep) hreg rfl h.ob h.obw h.last h.shape
+  have := dq_word (N := N) (as := as) hstep has rfl hreg.comment hreg.escaped hreg.heredoc hreg.bq hreg.hst
+    rfl rfl rfl rfl (by simp [afterSep, h.nest])
+  refine ⟨this.1, ?_⟩
+  rw [this.2]
+  simp [afterSep, h.nest]
+
+/-- the input starts with a string -/
+theorem init_dq {as : List Rune} (has : as.all dqCh = true) :
+    InvQ 0 ((rDQ :: (as ++ [rDQ])).foldl step {}) ∧
+      ((rDQ :: (as ++ [rDQ])).foldl step {}).rout = rDQ :: (as.reverse ++ [rDQ]) := by
+  have hstep : step ({} : FState) rDQ
+      = { ({} : FState) with rout := [rDQ], last := rDQ, space := false, bol := false, quoted := true } := by decide
+  have := dq_word (N := 0) (as := as) hstep has rfl rfl rfl rfl rfl rfl rfl rfl rfl rfl rfl
+  exact ⟨this.1, this.2⟩
+
+/-- after a comment: a string on one of the following lines -/
+theorem m_dq {N : Nat} {s : FState} {ws : List Rune} {as : List Rune}
+    (h : InvM N s) (hws : ws.all wsCh = true) (has : as.all dqCh = true) :
+    InvQ N (((rNL :: ws) ++ rDQ :: (as ++ [rDQ])).foldl step s) ∧
+      (((rNL :: ws) ++ rDQ :: (as ++ [rDQ])).foldl step s).rout =
+        rDQ :: (as.reverse ++ (rDQ :: (tabsN N ++ (nlsN (min (countNL ws) 2) ++ (rNL :: s.rout))))) := by
+  obtain ⟨t, ht, hreg, hsp, hob, hnest, hbol, hlast, hnl, hrout⟩ := after_comment_sep h hws
+  rw [List.foldl_append, ht]
+  by_cases hk : countNL ws = 0
+  · have hstep := first_dq_bol (t := t) hreg hsp hob (by rw [hnl, hk]) hbol hlast
+    have := dq_word (N := N) (as := as) hstep has rfl hreg.comment hreg.escaped hreg.heredoc hreg.bq hreg.hst
+      rfl rfl (by simp [hnl, hk]) hob hnest
+    refine ⟨this.1, ?_⟩
+    rw [this.2]
+    simp [hk, hnest, hrout, nlsN]
+  · have hstep := first_dq_nl (t := t) hreg hsp hob (by rw [hnl]; omega)
+    have := dq_word (N := N) (as := as) hstep has rfl hreg.comment hreg.escaped hreg.heredoc hreg.bq hreg.hst
+      rfl rfl rfl hob hnest
+    refine ⟨this.1, ?_⟩
+    rw [this.2]
+    simp [hnest, hrout, hnl]
+
+theorem outOf_q {N : Nat} {s : FState} (h : InvQ N s) : outOf s = s.rout.reverse := by
+  simp [outOf, h.ob]
+
 theorem outOf_np {N : Nat} {s : FState} (h : NoPend N s) : outOf s = s.rout.reverse := by
   simp [outOf, h.ob]
 
@@ -812,7 +1101,8 @@ theorem outOf_o {N : Nat} {s : FState} (h : InvO N s) : outOf s = s.rout.reverse
 
 /-- **one chunk** of a good chunk list: the invariant moves on and the output grows by the
     canonical separator and the word -/
-theorem chunk_step {prev : Option Kind} {N : Nat} {s : FState} {c : Chunk} {cs : List Chunk}
+theorem chunk_step_core {prev : Option Kind} {N : Nat} {s : FState} {c : Chunk} {cs : List Chunk}
+    (hp : prev ≠ some .dq)
     (hg : goodFrom prev (c :: cs) = true) (hinv : Inv prev N s) :
     Inv (some c.kind) (nextN N c.kind) ((c.sep ++ c.word).foldl step s) ∧
       outOf ((c.sep ++ c.word).foldl step s) = outOf s ++ (canonSep prev N c ++ c.word) := by
@@ -861,6 +1151,7 @@ theorem chunk_step {prev : Option Kind} {N : Nat} {s : FState} {c : Chunk} {cs :
         rw [outOf_np this.1.np, outOf_np hinv'.np, this.2]
         have hnl : countNL c.sep ≠ 0 := by have := hcond.1; unfold Chunk.nl at this; omega
         simp [canonSep, hk, Chunk.nl, hnl, reverse_tabsN, reverse_nlsN]
+      | dq => exact absurd rfl hp
       | cmt =>
         have hinv' : InvM N s := hinv
         simp only [hk, Bool.and_eq_true, beq_iff_eq] at hcond
@@ -919,6 +1210,7 @@ theorem chunk_step {prev : Option Kind} {N : Nat} {s : FState} {c : Chunk} {cs :
         rw [outOf_m this.1, outOf_np hinv'.np, this.2]
         have hnl : countNL c.sep ≠ 0 := by have := hcond.1; unfold Chunk.nl at this; omega
         simp [canonSep, hk, Chunk.nl, hnl, reverse_tabsN, reverse_nlsN]
+      | dq => exact absurd rfl hp
       | cmt =>
         have hinv' : InvM N s := hinv
         simp only [hk, Bool.and_eq_true, beq_iff_eq] at hcond
@@ -934,6 +1226,65 @@ theorem chunk_step {prev : Option Kind} {N : Nat} {s : FState} {c : Chunk} {cs :
         have := m_cmt hinv' hsep.2 has hlast
         refine ⟨this.1, ?_⟩
         rw [outOf_m this.1, outOf_m hinv', this.2]
+        simp [canonSep, hk, Chunk.nl, hws, countNL, reverse_tabsN, reverse_nlsN]
+  | dq =>
+    obtain ⟨as, hword, has⟩ := kind_dq_word hw hk
+    rw [hword]
+    cases prev with
+    | none =>
+      obtain ⟨rfl, rfl⟩ := hinv
+      simp only [List.isEmpty_iff, Bool.and_eq_true] at hcond
+      rw [hcond.1]
+      have := init_dq has
+      simp only [List.nil_append]
+      refine ⟨this.1, ?_⟩
+      rw [outOf_q this.1, this.2]
+      simp [outOf, canonSep]
+    | some k =>
+      cases k with
+      | plain =>
+        have hinv' : InvP N s := hinv
+        simp only [hk, Bool.and_eq_true, Bool.not_eq_true', List.isEmpty_eq_false_iff] at hcond
+        by_cases hnl : countNL c.sep = 0
+        · have := p_dq_sp hinv' hsep hcond.1 hnl has
+          refine ⟨this.1, ?_⟩
+          rw [outOf_q this.1, outOf_np hinv'.np, this.2]
+          simp [canonSep, hk, Chunk.nl, hnl]
+        · have := np_dq_nl hinv'.np hsep (by omega) has
+          refine ⟨this.1, ?_⟩
+          rw [outOf_q this.1, outOf_np hinv'.np, this.2]
+          simp [canonSep, hk, Chunk.nl, hnl, reverse_tabsN, reverse_nlsN]
+      | opn =>
+        have hinv' : InvO N s := hinv
+        simp only [hk, Bool.and_eq_true, decide_eq_true_eq] at hcond
+        have := o_dq hinv' hsep hcond.1 has
+        refine ⟨this.1, ?_⟩
+        rw [outOf_q this.1, outOf_o hinv', this.2]
+        simp [canonSep, hk, reverse_tabsN]
+      | cls =>
+        have hinv' : InvC N s := hinv
+        simp only [hk, Bool.and_eq_true, decide_eq_true_eq] at hcond
+        have := np_dq_nl hinv'.np hsep hcond.1 has
+        refine ⟨this.1, ?_⟩
+        rw [outOf_q this.1, outOf_np hinv'.np, this.2]
+        have hnl : countNL c.sep ≠ 0 := by have := hcond.1; unfold Chunk.nl at this; omega
+        simp [canonSep, hk, Chunk.nl, hnl, reverse_tabsN, reverse_nlsN]
+      | dq => exact absurd rfl hp
+      | cmt =>
+        have hinv' : InvM N s := hinv
+        simp only [hk, Bool.and_eq_true, beq_iff_eq] at hcond
+        obtain ⟨ws, hws⟩ : ∃ ws, c.sep = rNL :: ws := by
+          cases hcs : c.sep with
+          | nil => rw [hcs] at hcond; simp at hcond
+          | cons x ws =>
+            rw [hcs] at hcond
+            simp only [List.head?_cons, Option.some.injEq] at hcond
+            exact ⟨ws, by rw [hcond.1]⟩
+        rw [hws] at hsep ⊢
+        simp only [List.all_cons, Bool.and_eq_true] at hsep
+        have := m_dq hinv' hsep.2 has
+        refine ⟨this.1, ?_⟩
+        rw [outOf_q this.1, outOf_m hinv', this.2]
         simp [canonSep, hk, Chunk.nl, hws, countNL, reverse_tabsN, reverse_nlsN]
   | opn =>
     rw [kind_opn_word hk]
@@ -958,6 +1309,7 @@ theorem chunk_step {prev : Option Kind} {N : Nat} {s : FState} {c : Chunk} {cs :
         simp [canonSep, hk]
       | opn => simp [hk] at hcond
       | cls => simp [hk] at hcond
+      | dq => exact absurd rfl hp
       | cmt => simp [hk] at hcond
   | cls =>
     rw [kind_cls_word hk]
@@ -989,6 +1341,7 @@ theorem chunk_step {prev : Option Kind} {N : Nat} {s : FState} {c : Chunk} {cs :
         refine ⟨this.1, ?_⟩
         rw [outOf_np this.1.np, outOf_np hinv'.np, this.2]
         simp [canonSep, hk, reverse_tabsN]
+      | dq => exact absurd rfl hp
       | cmt =>
         have hinv' : InvM N s := hinv
         simp only [hk, Bool.and_eq_true, beq_iff_eq] at hcond
@@ -1006,6 +1359,33 @@ theorem chunk_step {prev : Option Kind} {N : Nat} {s : FState} {c : Chunk} {cs :
         rw [outOf_np this.1.np, outOf_m hinv', this.2]
         simp [canonSep, hk, reverse_tabsN]
 
+theorem goodFrom_dq_plain (l : List Chunk) (hl : l ≠ []) : goodFrom (some .dq) l = goodFrom (some .plain) l := by
+  cases l with
+  | nil => exact absurd rfl hl
+  | cons c cs => simp only [goodFrom]
+
+theorem canonSep_dq_plain (N : Nat) (c : Chunk) : canonSep (some .dq) N c = canonSep (some .plain) N c := rfl
+
+/-- **one chunk**, for every kind of previous word: after a string the white space first clears
+    `tokenEnded`, then everything is as after a plain word -/
+theorem chunk_step {prev : Option Kind} {N : Nat} {s : FState} {c : Chunk} {cs : List Chunk}
+    (hg : goodFrom prev (c :: cs) = true) (hinv : Inv prev N s) :
+    Inv (some c.kind) (nextN N c.kind) ((c.sep ++ c.word).foldl step s) ∧
+      outOf ((c.sep ++ c.word).foldl step s) = outOf s ++ (canonSep prev N c ++ c.word) := by
+  by_cases hp : prev = some .dq
+  · subst hp
+    have hq : InvQ N s := hinv
+    rw [goodFrom_dq_plain _ (by simp)] at hg
+    have hsep : c.sep.all wsCh = true ∧ c.sep ≠ [] := by
+      simp only [goodFrom, Bool.and_eq_true, Bool.not_eq_true', List.isEmpty_eq_false_iff] at hg
+      exact ⟨hg.1.1.1, hg.1.2.1⟩
+    have := chunk_step_core (prev := some .plain) (N := N) (s := { s with tokenEnded := false }) (by simp) hg hq.toP
+    rw [foldl_after_dq hq hsep.1 hsep.2, canonSep_dq_plain]
+    refine ⟨this.1, ?_⟩
+    rw [this.2]
+    simp [outOf]
+  · exact chunk_step_core hp hg hinv
+
 /-- **the whole chunk list**: the buffer ends up holding exactly the canonical rendering -/
 theorem fmt_chunks : ∀ (cs : List Chunk) (prev : Option Kind) (N : Nat) (s : FState),
     goodFrom prev cs = true → Inv prev N s →
@@ -1015,7 +1395,7 @@ theorem fmt_chunks : ∀ (cs : List Chunk) (prev : Option Kind) (N : Nat) (s : F
   | [], prev, N, s, hg, hinv => by
     simp only [goodFrom, Bool.or_eq_true, beq_iff_eq] at hg
     simp only [flatten, List.foldl_nil, canon, List.append_nil]
-    rcases hg with (hg | hg) | hg
+    rcases hg with ((hg | hg) | hg) | hg
     · subst hg
       have h : InvP N s := hinv
       obtain ⟨r, hr⟩ := h.head
@@ -1028,6 +1408,10 @@ theorem fmt_chunks : ∀ (cs : List Chunk) (prev : Option Kind) (N : Nat) (s : F
       have h : InvM N s := hinv
       obtain ⟨r, hr⟩ := h.head
       exact ⟨⟨_, r, hr, h.lastNS⟩, (outOf_m h).symm, by simp [flushEnd, h.ob]⟩
+    · subst hg
+      have h : InvQ N s := hinv
+      obtain ⟨r, hr⟩ := h.head
+      exact ⟨⟨_, r, hr, by decide⟩, (outOf_q h).symm, by simp [flushEnd, h.ob]⟩
   | c :: cs, prev, N, s, hg, hinv => by
     have h1 := chunk_step hg hinv
     have hg' : goodFrom (some c.kind) cs = true := by
@@ -1081,10 +1465,14 @@ theorem word_nonspace {c : Chunk} (hw : c.wordOK = true) :
       obtain ⟨r, hr⟩ := reverse_append_lastOf t h []
       have hrev : (h :: t).reverse = lastOf h t :: r := by
         rw [List.reverse_cons]; exact hr
-      rcases hw with hw | hw
+      rcases hw with (hw | hw) | hw
       · obtain ⟨⟨hh, -⟩, hl⟩ := hw
         subst hh
         exact ⟨⟨_, _, rfl, by decide⟩, ⟨_, r, hrev, hl⟩⟩
+      · obtain ⟨hh, hd⟩ := hw
+        subst hh
+        obtain ⟨content, hc, -⟩ := dqTail_spec t hd
+        exact ⟨⟨_, _, rfl, by decide⟩, ⟨rDQ, content.reverse ++ [rDQ], by simp [hc], by decide⟩⟩
       · exact ⟨⟨_, _, rfl, (plainCh_spec hw.1).1⟩, ⟨_, r, hrev, (plainCh_spec (lastOf_plain t h hw.1 hw.2)).1⟩⟩
 
 theorem flatten_head {prev : Option Kind} {c : Chunk} {cs : List Chunk} (hg : goodFrom prev (c :: cs) = true)
@@ -1120,8 +1508,9 @@ theorem word_head_not_bom {c : Chunk} (hw : c.wordOK = true) {a : Rune} {r : Lis
   rcases hw with (hw | hw) | hw
   · rw [hw.1]; decide
   · rw [hw.1]; decide
-  · rcases hw with hw | hw
+  · rcases hw with (hw | hw) | hw
     · rw [hw.1.1]; decide
+    · rw [hw.1]; decide
     · exact (plainCh_spec hw.1).2.2.2.2.2.2.2.2
 
 /-- **`Format` on the fragment**: surrounding white space is trimmed and the chunks are
